@@ -110,20 +110,216 @@ def _alias_tables(ctx: Ctx, init: Func):
                 out.append((g, pairs, n, registered, []))
     return out
 
+def _ct_expand(prog, f_scope, test: ast.AST, depth: int = 0) -> ast.AST:
+    """`test` with the boolean locals that hold a comparison of the commit type replaced by that comparison (`full = self._commit_type == CommitType.FULL`
+    ... `if full:`): the commit-type tests are recognised whether they are written in the `if` or held in a local first"""
+    import copy
+    from ..flow import flow_of
+    if f_scope is None or depth > 2:
+        return test
+    fl = flow_of(prog, f_scope)
+    repl = {}
+    for n in ast.walk(test):
+        if isinstance(n, ast.Name) and isinstance(n.ctx, ast.Load):
+            try:
+                ds = fl.defs_of_use(n)
+            except Exception:
+                continue
+            if len(ds) == 1 and ds[0].value is not None and "_commit_type" in ast.unparse(ds[0].value) and not any(
+                    isinstance(x, ast.Call) for x in ast.walk(ds[0].value)):
+                repl[id(n)] = ds[0].value
+            elif len(ds) == 1 and isinstance(ds[0].value, (ast.BoolOp, ast.UnaryOp, ast.Compare, ast.Name)) and depth < 2 and not any(
+                    isinstance(x, ast.Call) for x in ast.walk(ds[0].value)):
+                inner = _ct_expand(prog, f_scope, ds[0].value, depth + 1)
+                if "_commit_type" in ast.unparse(inner):
+                    repl[id(n)] = inner
+    if not repl:
+        return test
+
+    class T(ast.NodeTransformer):
+        def visit_Name(self, node):
+            return repl.get(id(node), node)
+
+    # (transform a shallow copy of the spine only: the leaves keep their identity, the replaced names are swapped)
+    def rebuild(n):
+        if id(n) in repl:
+            return repl[id(n)]
+        if isinstance(n, ast.BoolOp):
+            return ast.BoolOp(op=n.op, values=[rebuild(v) for v in n.values])
+        if isinstance(n, ast.UnaryOp):
+            return ast.UnaryOp(op=n.op, operand=rebuild(n.operand))
+        return n
+    return rebuild(test)
+
+
+def mentions_ct(prog, f_scope, test: ast.AST) -> bool:
+    return "_commit_type" in ast.unparse(_ct_expand(prog, f_scope, test))
+
+
 def cond_under(ev: Evaluator, f_scope, test: ast.AST, member: EnumMember) -> Optional[bool]:
-    """truth of a branch condition when self._commit_type is `member` (None when it does not depend on it / is unknown)"""
+    """truth of a branch condition when self._commit_type is `member` (None when it does not depend on it / is unknown).  Three-valued over
+    and / or / not: the parts that do not mention the commit type are unknown, `full and not copied` is False under a non-full member and
+    unknown under the full one"""
     from ..absint import Env
+    test = _ct_expand(ev.prog, f_scope, test)
 
-    class SelfObj:
-        pass
+    def k(t: ast.AST) -> Optional[bool]:
+        if isinstance(t, ast.BoolOp):
+            vs = [k(v) for v in t.values]
+            if isinstance(t.op, ast.And):
+                return False if any(v is False for v in vs) else (True if all(v is True for v in vs) else None)
+            return True if any(v is True for v in vs) else (False if all(v is False for v in vs) else None)
+        if isinstance(t, ast.UnaryOp) and isinstance(t.op, ast.Not):
+            v = k(t.operand)
+            return None if v is None else (not v)
+        if "_commit_type" not in ast.unparse(t):
+            return None
+        env = Env()
+        env.vars["self"] = Obj("self", [], {"_commit_type": member})
+        try:
+            return ev.truth(ev.eval(t, env, f_scope))
+        except Exception:
+            return None
+    return k(test)
 
-    env = Env()
-    env.vars["self"] = Obj("self", [], {"_commit_type": member})
-    try:
-        v = ev.eval(test, env, f_scope)
-    except Exception:
-        return None
-    return ev.truth(v)
+
+def full_copy_vouched(ctx: Ctx, rule: str, ev: Evaluator, enum, full_name: str) -> int:
+    """Under the full commit an iteration of sync_paths ends without copying the data only when something vouches for the copy that is there: a
+    field of the redirect record other than the key, or a look at the copy's location.  The redirect record alone (`recorded key == key`)
+    does not: a links-only commit writes the same record without any copy.
+
+    Decided on the CFG of sync_paths: there is no path from the loop head to the next iteration that avoids every copy and every branch
+    outcome which - as a propositional formula over {commit type is full, a voucher holds, <other tests>} - excludes `full and not vouched`."""
+    import itertools
+    from ..cfg import cfg_of
+    from ..flow import flow_of
+    from .common import witness_path
+    rep = ctx.report
+    prog = ctx.prog
+    cls = prog.classes.get(DBFS)
+    if cls is None or "sync_paths" not in cls.methods:
+        raise AnchorError(f"{DBFS}.sync_paths not found")
+    f = cls.methods["sync_paths"]
+    cfg = cfg_of(f)
+    fl = flow_of(prog, f)
+    m = StoreModel(prog, cls, ctx._types)
+    effs = m.effects_of("sync_paths")
+    data_attrs = [a for a, d in m.attr_defs.items() if d[:2] == ("ctor", 1)]
+    copy_asts = [e.root_node for e in effs if e.kind in ("CP", "WRITE_INPLACE") and any(mentions_attr(e.term, a) for a in data_attrs) and e.root_func is f]
+    full_mem = EnumMember(enum, full_name)
+    loops = [x for x in f.own_nodes() if isinstance(x, ast.For) and isinstance(x.target, (ast.Tuple, ast.List)) and len(x.target.elts) == 2
+             and isinstance(x.target.elts[1], ast.Name)]
+    n = 0
+    for loop in loops:
+        keyv = loop.target.elts[1].id
+
+        # the record field(s) that hold the key: constants subscripted on the way to a value compared with the key
+        key_fields = set()
+        for c_ in f.own_nodes():
+            if isinstance(c_, ast.Compare) and len(c_.ops) == 1 and isinstance(c_.ops[0], (ast.Eq, ast.NotEq)):
+                sides = [c_.left, c_.comparators[0]]
+                if any(isinstance(x, ast.Name) and x.id == keyv for x in sides):
+                    for x in sides:
+                        if isinstance(x, ast.Name) and x.id != keyv:
+                            for d in fl.root_defs(x):
+                                if d.value is not None:
+                                    for y in ast.walk(d.value):
+                                        if isinstance(y, ast.Subscript) and isinstance(y.slice, ast.Constant) and isinstance(y.slice.value, str):
+                                            key_fields.add(y.slice.value)
+                                        if isinstance(y, ast.Call) and isinstance(y.func, ast.Attribute) and y.func.attr == "get" and y.args and isinstance(y.args[0], ast.Constant):
+                                            key_fields.add(y.args[0].value)
+
+        def is_voucher(e: ast.AST) -> bool:
+            """reads a record field other than the key, or looks at a location of the data directory (head / ls / exists of the copy)"""
+            for y in ast.walk(e):
+                if isinstance(y, ast.Subscript) and isinstance(y.slice, ast.Constant) and isinstance(y.slice.value, str) and y.slice.value not in key_fields:
+                    return True
+                if isinstance(y, ast.Call) and isinstance(y.func, ast.Attribute) and y.func.attr == "get" and y.args and isinstance(y.args[0], ast.Constant) \
+                        and isinstance(y.args[0].value, str) and y.args[0].value not in key_fields:
+                    return True
+            return False
+
+        atoms: Dict[str, int] = {}
+
+        def form(e: ast.AST, depth: int = 0):
+            if isinstance(e, ast.BoolOp):
+                return ("and" if isinstance(e.op, ast.And) else "or", [form(v, depth) for v in e.values])
+            if isinstance(e, ast.UnaryOp) and isinstance(e.op, ast.Not):
+                return ("not", form(e.operand, depth))
+            if isinstance(e, ast.Call) and isinstance(e.func, ast.Name) and e.func.id == "bool" and len(e.args) == 1:
+                return form(e.args[0], depth)
+            if "_commit_type" in ast.unparse(e):
+                t = cond_under(ev, f, e, full_mem)
+                if t is not None:
+                    # a pure commit-type test: true under full -> the atom `full`; false under full -> its negation is implied by full
+                    return ("atom", "full") if t else ("not", ("atom", "full"))
+            if isinstance(e, ast.Name) and depth < 3:
+                try:
+                    ds = fl.defs_of_use(e)
+                except Exception:
+                    ds = []
+                vals = [d.value for d in ds if d.value is not None]
+                if ds and len(vals) == len(ds):
+                    if len(vals) == 1 and isinstance(vals[0], (ast.BoolOp, ast.UnaryOp, ast.Compare, ast.Name)) or (
+                            len(vals) == 1 and isinstance(vals[0], ast.Call) and isinstance(vals[0].func, ast.Name) and vals[0].func.id == "bool"):
+                        return form(vals[0], depth + 1)
+                    # phi of constants and voucher reads: `copied = False` on one arm, `copied = bool(rec.get('copied'))` on the other
+                    if all(isinstance(v, ast.Constant) and v.value in (False, None) or is_voucher(v) for v in vals) and any(is_voucher(v) for v in vals):
+                        return ("atom", "vouched")
+            if is_voucher(e):
+                return ("atom", "vouched")
+            txt = ast.unparse(e)
+            neg = False
+            if isinstance(e, ast.Compare) and len(e.ops) == 1:
+                if isinstance(e.ops[0], ast.IsNot):
+                    txt, neg = ast.unparse(ast.Compare(left=e.left, ops=[ast.Is()], comparators=e.comparators)), True
+                if isinstance(e.ops[0], ast.NotEq):
+                    txt, neg = ast.unparse(ast.Compare(left=e.left, ops=[ast.Eq()], comparators=e.comparators)), True
+            atoms.setdefault(txt, len(atoms))
+            return ("not", ("atom", txt)) if neg else ("atom", txt)
+
+        def val(fm, asg) -> bool:
+            k = fm[0]
+            if k == "atom":
+                return asg[fm[1]]
+            if k == "not":
+                return not val(fm[1], asg)
+            if k == "and":
+                return all(val(x, asg) for x in fm[1])
+            return any(val(x, asg) for x in fm[1])
+
+        def excludes(b) -> bool:
+            """the outcome `b` of its test cannot hold together with `full and not vouched`"""
+            atoms.clear()
+            fm = form(_ct_expand(prog, f, b.ast))
+            names = [a for a in atoms]
+            if len(names) > 10:
+                return False
+            for bits in itertools.product([False, True], repeat=len(names)):
+                asg = dict(zip(names, bits))
+                asg["full"], asg["vouched"] = True, False
+                if val(fm, asg) == (b.label == "T"):
+                    return False
+            return True
+
+        avoid = [g for c in copy_asts for g in cfg.nodes_of(c)]
+        avoid += [b for b in cfg.nodes if b.kind == "branch" and b.ast is not None and b.ast is not loop and not isinstance(b.ast, (ast.For, ast.While)) and excludes(b)]
+        tb = [x for x in cfg.nodes if x.kind == "branch" and x.ast is loop and x.label == "T"]
+        heads = [x for x in cfg.nodes if x.kind == "loop" and x.ast is loop]
+        desc = "under the full commit an iteration of DBFS sync_paths ends without a copy only when the record (or the data directory) vouches for the copy"
+        if not copy_asts or not tb or not heads:
+            rep.unknown(rule, f.qname, "copy / loop of DBFS sync_paths not found", f.loc(loop))
+            continue
+        n += 1
+        pth = cfg.find_path(tb, heads + [cfg.exit], avoid=avoid, include_src=False)
+        if pth is None:
+            rep.ok(rule, f.qname, desc, f.loc(loop))
+        else:
+            rep.bad(rule, f.qname, desc, f.loc(loop), ["an iteration that makes no copy although the commit type is full and nothing vouches for an existing copy:"]
+                    + witness_path(cfg, f, pth)[-12:] + ["a store opened with commit_type='links_only' writes the redirect record of '/w/a'; a later store with commit_type='full' keeps "
+                    "the same result, finds the record current and never copies: 'full' leaves a record and NO copy under the data directory"],
+                    "full-without-copy", what="under the full commit a path whose redirect record is current gets no data copy (record written by a links-only commit)")
+    return n
 
 
 def run(ctx: Ctx) -> None:
@@ -156,11 +352,14 @@ def run(ctx: Ctx) -> None:
         for e in effs:
             alive = True
             for (test, pol) in e.conds:
-                if "_commit_type" not in ast.unparse(test):
+                if not mentions_ct(prog, e.func, test):
                     continue
                 t = cond_under(ev, e.func, test, mem)
                 if t is None:
-                    undecided = True
+                    # undecided only when the test is about the commit type alone; mixed with other facts it does not exclude the effect
+                    xt = _ct_expand(prog, e.func, test)
+                    if not isinstance(xt, (ast.BoolOp, ast.UnaryOp)):
+                        undecided = True
                 elif t != pol:
                     alive = False
             if alive and e.kind in ("PUT", "CP", "RM", "WRITE_INPLACE") and any(mentions_attr(e.term, a) for a in data_attrs):
@@ -195,7 +394,7 @@ def run(ctx: Ctx) -> None:
         for e in effs:
             ok = True
             for (test, pol) in e.conds:
-                if "_commit_type" in ast.unparse(test):
+                if mentions_ct(prog, e.func, test):
                     t = cond_under(ev, e.func, test, mem)
                     if t is not None and t != pol:
                         ok = False
@@ -265,7 +464,7 @@ def run(ctx: Ctx) -> None:
     put_nodes = [e.root_node for e in effs if e.kind == "PUT" and any(mentions_attr(e.term, a) for a in data_attrs) and e.root_func is sync]
     doms = [d for c in copy_nodes for d in done_nodes(scfg, c)]
     for b in scfg.nodes:
-        if b.kind == "branch" and b.ast is not None and "_commit_type" in ast.unparse(b.ast) and full:
+        if b.kind == "branch" and b.ast is not None and full and mentions_ct(prog, sync, b.ast):
             t = cond_under(ev, sync, b.ast, EnumMember(enum, full[0]))
             if t is not None and ((b.label == "T") != t):
                 doms.append(b)  # an outcome that excludes the full commit
@@ -301,6 +500,10 @@ def run(ctx: Ctx) -> None:
     rep.rule("C19.R14", "load works whenever the record exists: fetch_paths answers every requested path (the result is filed inside the loop over the paths)")
     n14 = every_path_answered(ctx, "C19.R14")
     rep.floor("C19.R14", n14, 1)
+    rep.rule("C19.R15", "'full' leaves a copy of each kept result: sync_paths skips the copy of a path only when the commit type is not full, or when the redirect record "
+                        "(a field other than the key) or the data directory vouches for the copy - the record alone is also written by links-only commits")
+    n15 = full_copy_vouched(ctx, "C19.R15", ev, enum, full[0]) if full else 0
+    rep.floor("C19.R15", n15, 1)
     rep.rule("C19.R12", "as C17.R11: the types a codec announces are the types its serialize_into accepts (a kept bytearray is stored by the bytes codec under every commit type)")
     from .c17 import announced_types_accepted
     n12 = announced_types_accepted(ctx, "C19.R12")
